@@ -7,7 +7,7 @@
    theorems are witnesses found on the model of the pinned code (pinned = true) and replayed on it. *)
 From Coq Require Import List NArith Bool String.
 From YK Require Import Place.Str Place.Acl Place.Rules Place.Placement Place.Spec
-     Place.AclProofs Place.RulesProofs Place.MainProofs Place.Final.
+     Place.AclProofs Place.RulesProofs Place.MainProofs Place.Final Place.LoadProofs.
 Import ListNotations.
 
 (* An accepted application is in a leaf queue that was not draining (Active when no queue is Stopped),
@@ -101,3 +101,11 @@ Theorem wf_preserved : forall w a o w',
     wf_tree (w_tree w) = true -> submit false w a = (o, w') -> wf_tree (w_tree w') = true.
 Proof. exact wf_preserved_final. Qed.
 Print Assumptions wf_preserved.
+
+(* ... and holds for every hierarchy built from a configuration whose top queue is named root
+   (what validation guarantees), whatever set-up operations (drain, stop) follow *)
+Theorem wf_initial : forall pinned tb name par s a tm ch ops rc via w,
+    lower name = s_root ->
+    init_world pinned tb (QConf name par s a tm ch) ops rc via = Some w -> wf_tree (w_tree w) = true.
+Proof. exact init_world_wf. Qed.
+Print Assumptions wf_initial.
